@@ -35,7 +35,9 @@ def run_one(d):
         out_dir = tempfile.mkdtemp(prefix="gvc-mut-smt-")
         args = [os.path.join(VERIF, "bin", "gvc"), cmd[0], "-repo", wt]
         if cmd[0] == "check":
-            args += ["-verif", tempfile.mkdtemp(prefix="gvc-mut-verif-")]
+            vd = tempfile.mkdtemp(prefix="gvc-mut-verif-")
+            shutil.copy(os.path.join(VERIF, "known_findings.json"), vd)  # listed findings stay findings
+            args += ["-verif", vd]
         if cmd[0] in ("olayer", "verify"):
             args += ["-out", out_dir]
         args += cmd[1:]
